@@ -56,9 +56,19 @@ class _Unused:
         raise sx.SXError("the X_sort_index placeholder was used")
 
 
-class _NP:
+class _NP(sx.Conversions):
     def __getattr__(self, k):
         return getattr(numpy, k)
+
+    # result buffers a rewritten predict / transform may preallocate
+    def zeros(self, shape, dtype=None, **kw):
+        return sx.typed_empty(shape, dtype, fill=0)
+
+    def empty(self, shape, dtype=None, **kw):
+        return sx.typed_empty(shape, dtype)
+
+    def full(self, shape, fill_value, dtype=None, **kw):
+        return sx.typed_empty(shape, dtype, fill=fill_value)
 
     def argsort(self, a, axis=-1, **kw):
         if isinstance(a, numpy.ndarray) and a.dtype == object and a.ndim == 2 and axis == 0:
@@ -221,6 +231,48 @@ def sc_fit(cfg):
     return scenario
 
 
+def sc_batch(cfg):
+    """predict / transform (L1) of two symbolic rows at the end of a 1030-row batch (fixed numeric filler rows,
+    centres set by hand: no fit) == the same rows alone: beyond any row-blocking size in sight"""
+    km = loader.load("mlmodel.kmeans_l1")
+
+    def scenario(C):
+        k, d, N = 3, 1, 1030
+        est = km.KMeansL1L2(n_clusters=k, norm="L1")
+        est.cluster_centers_ = numpy.array([[10.0], [20.0], [0.0]])  # not in sorted order
+        if C.symbolic:
+            rows = sx.cur().reals("q", 2, d)
+        else:
+            rows = numpy.array([[float(C.inputs.get(f"q_{i}_0", 3.0 + 9 * i))] for i in range(2)])
+        big = numpy.empty((N, d), dtype=object if C.symbolic else float)
+        for r in range(N - 2):
+            big[r, 0] = float((r * 7) % 23) - 1.0
+        big[N - 2], big[N - 1] = rows[0], rows[1]
+        if C.symbolic:
+            big = big.view(sx.SArr)
+        stubs = dict(check_is_fitted=lambda s_: None)
+        if C.symbolic:
+            stubs.update(numpy=_NP(), pairwise_distances_argmin_min=manhattan_argmin_min, manhattan_distances=manhattan_matrix)
+            est._check_test_data = lambda Xa: Xa
+        else:
+            est._n_threads, est.n_features_in_ = 1, d
+        with harness.patched(km, **stubs):
+            Tb, pb = est.transform(big), est.predict(big)
+            C.true(numpy.shape(Tb) == (N, k) and len(pb) == N, "batch/shapes")
+            for i in range(2):
+                T1, p1 = est.transform(rows[i : i + 1]), est.predict(rows[i : i + 1])
+                for c in range(k):
+                    want = sx.ssum([abs(rows[i, j] - est.cluster_centers_[c, j]) for j in range(d)])
+                    C.eq(Tb[N - 2 + i, c], want, "batch/transform(row-at-the-end-of-1030-rows)=Manhattan-distances", detail=(i, c))
+                    C.eq(T1[0, c], want, "batch/transform(row-alone)=Manhattan-distances", detail=(i, c))
+                C.true(int(pb[N - 2 + i]) == int(p1[0]), "batch/predict(row-at-the-end-of-1030-rows)==predict(row-alone)", detail=i)
+            for r in (0, 1, 1023, 1024, 1025):
+                for c in range(k):
+                    C.eq(Tb[r, c], abs(big[r, 0] - est.cluster_centers_[c, 0]), "batch/transform(row-at-the-end-of-1030-rows)=Manhattan-distances", detail=(r, c))
+
+    return scenario
+
+
 def sc_l2(cfg):
     km = loader.load("mlmodel.kmeans_l1")
 
@@ -291,7 +343,7 @@ def sc_l2(cfg):
     return scenario
 
 
-SCEN = dict(lloyd=sc_lloyd, fit=sc_fit, l2=sc_l2)
+SCEN = dict(lloyd=sc_lloyd, fit=sc_fit, l2=sc_l2, batch=sc_batch)
 
 
 def run_config(cfg):
@@ -343,6 +395,7 @@ def configs(tier):
     out.append(dict(kind="lloyd", n=3, d=1, k=1, max_iter=2, init="random", tol0=True))
     out.append(dict(kind="fit", n=3, d=1, k=2, max_iter=1 if tier == "quick" else 2, n_init=2))
     out.append(dict(kind="l2"))
+    out.append(dict(kind="batch"))
     return out
 
 
